@@ -318,107 +318,8 @@ func checkSharedLocks(c *Ctx, res *report.Result) {
 			}
 		}
 	}
-	// ---- O20.6: no re-entrant acquisition / no lock-order cycle among the shared locks.
-	// acquires(g): the shared mutexes g locks, itself or through module callees and closures.
-	acq := map[*ssa.Function]map[string]bool{}
-	var acquires func(g *ssa.Function, depth int) map[string]bool
-	acquires = func(g *ssa.Function, depth int) map[string]bool {
-		if m, ok := acq[g]; ok {
-			return m
-		}
-		m := map[string]bool{}
-		acq[g] = m
-		if depth > 8 || g.Blocks == nil {
-			return m
-		}
-		for _, op := range flow.MutexOps(g) {
-			if op.Op != "Lock" && op.Op != "RLock" {
-				continue
-			}
-			if fa, ok := op.Instr.Common().Args[0].(*ssa.FieldAddr); ok {
-				if nt := namedOf(fa.X.Type()); nt != nil && shared[nt.Obj().Name()+"."+op.Field] {
-					m[nt.Obj().Name()+"."+op.Field] = true
-				}
-			}
-		}
-		for _, cal := range flow.Callees(g, true) {
-			if cal.Package() == nil || !strings.HasPrefix(cal.Package().Pkg.Path(), modPath) {
-				continue
-			}
-			for k := range acquires(cal, depth+1) {
-				m[k] = true
-			}
-		}
-		return m
-	}
-	rule6 := "O20.6"
-	order := map[string]map[string]string{} // held -> acquired -> where
-	n6 := 0
-	for _, f := range c.Prog.RepoFuncs() {
-		if f.Package() != sp {
-			continue
-		}
-		for _, sec := range flow.Sections(f) {
-			fa, ok := sec.Lock.Instr.Common().Args[0].(*ssa.FieldAddr)
-			if !ok {
-				continue
-			}
-			nt := namedOf(fa.X.Type())
-			if nt == nil || !shared[nt.Obj().Name()+"."+sec.Lock.Field] {
-				continue
-			}
-			held := nt.Obj().Name() + "." + sec.Lock.Field
-			n6++
-			bad := false
-			for _, ins := range sec.Instrs {
-				call, isCall := ins.(ssa.CallInstruction)
-				if !isCall {
-					continue
-				}
-				if _, isDefer := ins.(*ssa.Defer); isDefer {
-					continue
-				}
-				var targets []*ssa.Function
-				if cal := flow.StaticCallee(call.Common()); cal != nil {
-					targets = append(targets, cal)
-				}
-				if mc, isMC := call.Common().Value.(*ssa.MakeClosure); isMC {
-					if fn, okf := mc.Fn.(*ssa.Function); okf {
-						targets = append(targets, fn)
-					}
-				}
-				for _, cal := range targets {
-					if cal.Package() == nil || !strings.HasPrefix(cal.Package().Pkg.Path(), modPath) {
-						continue
-					}
-					for k := range acquires(cal, 0) {
-						if k == held {
-							bad = true
-							res.Viol(rule6, fmt.Sprintf("%s: no re-entrant acquisition of %s", shortFn(f), held), instrPos(c.Prog, ins), "while holding "+held+" the function calls "+shortFn(cal)+", which acquires the same non-reentrant mutex: the goroutine blocks on itself, the lock is never released and every later stream blocks on it")
-						} else {
-							if order[held] == nil {
-								order[held] = map[string]string{}
-							}
-							order[held][k] = instrPos(c.Prog, ins)
-						}
-					}
-				}
-			}
-			if !bad {
-				res.Hold(rule6, fmt.Sprintf("%s: no re-entrant acquisition of %s", shortFn(f), held), instrPos(c.Prog, sec.Lock.Instr), "no call inside the section reaches a Lock/RLock of the same mutex")
-			}
-		}
-	}
-	// cycles among distinct shared locks
-	cyc := ""
-	for a, m := range order {
-		for b, where := range m {
-			if _, back := order[b][a]; back {
-				cyc = a + " -> " + b + " (" + where + ") and back (" + order[b][a] + ")"
-			}
-		}
-	}
-	res.Check(cyc == "", rule6, "shared locks are acquired in one order", "", fmt.Sprintf("%d nested acquisitions, no cycle", len(order)), "lock-order inversion: "+cyc)
+	// ---- O20.6: no re-entrant acquisition / no lock-order cycle among the shared locks
+	n6 := checkReentrancy(c, res, "O20.6", []*ssa.Package{sp}, func(key string) bool { return shared[key] })
 	res.Analysed["reentrancy_sections"] = n6
 	res.Analysed["shared_mutex_fields"] = sortedKeys(shared)
 	res.Analysed["critical_sections"] = n
@@ -692,4 +593,150 @@ func checkNarrowArithmetic(c *Ctx, res *report.Result, h *ssa.Function) {
 		res.Hold(rule, "no narrow arithmetic on metadata ids", "", fmt.Sprintf("%d functions examined", len(fs)))
 	}
 	res.Analysed["taint_functions"] = fs
+}
+
+// checkReentrancy: inside a critical section of a mutex field selected by `sel` ("Owner.field"), no call
+// (through module callees and closures) acquires the same mutex again, and the selected mutexes are
+// nested in one order only. Returns the number of sections examined.
+func checkReentrancy(c *Ctx, res *report.Result, rule6 string, pkgs []*ssa.Package, sel func(key string) bool) int {
+	inPkgs := map[*ssa.Package]bool{}
+	for _, p := range pkgs {
+		inPkgs[p] = true
+	}
+	keyOf := func(op flow.MutexOp) string {
+		if fa, ok := op.Instr.Common().Args[0].(*ssa.FieldAddr); ok {
+			if nt := namedOf(fa.X.Type()); nt != nil {
+				return nt.Obj().Name() + "." + op.Field
+			}
+		}
+		return ""
+	}
+	acq := map[*ssa.Function]map[string]bool{}
+	var acquires func(g *ssa.Function, depth int) map[string]bool
+	acquires = func(g *ssa.Function, depth int) map[string]bool {
+		if m, ok := acq[g]; ok {
+			return m
+		}
+		m := map[string]bool{}
+		acq[g] = m
+		if depth > 8 || g.Blocks == nil {
+			return m
+		}
+		for _, op := range flow.MutexOps(g) {
+			if op.Op != "Lock" && op.Op != "RLock" {
+				continue
+			}
+			if k := keyOf(op); k != "" && sel(k) {
+				m[k] = true
+			}
+		}
+		// synchronous callees only: calls and defers (not `go`), closures created here (they may be invoked
+		// synchronously by a callee: once.Do, sort callbacks, ...) except those that are only started with `go`
+		var cals []*ssa.Function
+		goOnly := map[*ssa.Function]bool{}
+		for _, b := range g.Blocks {
+			for _, ins := range b.Instrs {
+				switch x := ins.(type) {
+				case *ssa.Go:
+					if cal := flow.StaticCallee(&x.Call); cal != nil {
+						goOnly[cal] = true
+					}
+					if mc, ok := x.Call.Value.(*ssa.MakeClosure); ok {
+						if fn, ok := mc.Fn.(*ssa.Function); ok {
+							goOnly[fn] = true
+						}
+					}
+				case ssa.CallInstruction:
+					if cal := flow.StaticCallee(x.Common()); cal != nil {
+						cals = append(cals, cal)
+					}
+				case *ssa.MakeClosure:
+					if fn, ok := x.Fn.(*ssa.Function); ok {
+						cals = append(cals, fn)
+					}
+				}
+			}
+		}
+		for _, cal := range cals {
+			if goOnly[cal] || cal.Package() == nil || !strings.HasPrefix(cal.Package().Pkg.Path(), modPath) {
+				continue
+			}
+			for k := range acquires(cal, depth+1) {
+				m[k] = true
+			}
+		}
+		return m
+	}
+	order := map[string]map[string]string{} // held -> acquired -> where
+	n6 := 0
+	for _, f := range c.Prog.RepoFuncs() {
+		if !inPkgs[f.Package()] || !isShippedFunc(f) {
+			continue
+		}
+		for _, sec := range flow.Sections(f) {
+			held := keyOf(sec.Lock)
+			if held == "" || !sel(held) {
+				continue
+			}
+			n6++
+			bad := false
+			for _, ins := range sec.Instrs {
+				call, isCall := ins.(ssa.CallInstruction)
+				if !isCall {
+					continue
+				}
+				if _, isDefer := ins.(*ssa.Defer); isDefer {
+					continue
+				}
+				if _, isGo := ins.(*ssa.Go); isGo {
+					continue // another goroutine: it waits, the holder does not
+				}
+				var targets []*ssa.Function
+				if cal := flow.StaticCallee(call.Common()); cal != nil {
+					targets = append(targets, cal)
+				}
+				if mc, isMC := call.Common().Value.(*ssa.MakeClosure); isMC {
+					if fn, okf := mc.Fn.(*ssa.Function); okf {
+						targets = append(targets, fn)
+					}
+				}
+				for _, cal := range targets {
+					if cal.Package() == nil || !strings.HasPrefix(cal.Package().Pkg.Path(), modPath) {
+						continue
+					}
+					for k := range acquires(cal, 0) {
+						if k == held {
+							bad = true
+							res.Viol(rule6, fmt.Sprintf("%s: no re-entrant acquisition of %s", shortFn(f), held), instrPos(c.Prog, ins), "while holding "+held+" the function calls "+shortFn(cal)+", which acquires the same non-reentrant mutex: the goroutine blocks on itself, the lock is never released and everything that needs it blocks behind it")
+						} else {
+							if order[held] == nil {
+								order[held] = map[string]string{}
+							}
+							order[held][k] = instrPos(c.Prog, ins)
+						}
+					}
+				}
+			}
+			if !bad {
+				res.Hold(rule6, fmt.Sprintf("%s: no re-entrant acquisition of %s", shortFn(f), held), instrPos(c.Prog, sec.Lock.Instr), "no call inside the section reaches a Lock/RLock of the same mutex")
+			}
+		}
+	}
+	cyc := ""
+	for a, m := range order {
+		for b, where := range m {
+			if _, back := order[b][a]; back {
+				cyc = a + " -> " + b + " (" + where + ") and back (" + order[b][a] + ")"
+			}
+		}
+	}
+	var nest []string
+	for a, m := range order {
+		for b := range m {
+			nest = append(nest, a+" -> "+b)
+		}
+	}
+	sort.Strings(nest)
+	res.Check(cyc == "", rule6, "locks are acquired in one order", "", fmt.Sprintf("%d nested acquisitions, no cycle: %s", len(nest), strings.Join(nest, "; ")), "lock-order inversion: "+cyc)
+	return n6
 }
